@@ -173,6 +173,7 @@ def check(F, rep, tier):
         for g_, bi, c in readers:
             site = "%s bb%d line %s" % (g_.where(), bi, g_.blocks[bi]["line"])
             key = g_.path.replace("crate::", "").rsplit("::", 1)[-1]
+            if "format_handler" in g_.path: key = "parse_and_validate_zerv_ron"      # the stdin reader, whatever helper holds the call
             if c.endswith("Options::from_str"): rep.undecided("R12.7", "reader-options:" + key, "the reader uses explicit ron::Options: its recursion limit is not evaluated", site)
             elif unbounded and not depth_checked and "format_handler" not in g_.path:
                 rep.ok("R12.7", "%s re-reads a document zerv produced in-process from an object that was itself read or built from flags (same limit as the stdin reader)" % key, sample=site, nontrivial_key="depthint" + key)
